@@ -353,5 +353,7 @@ func main() {
 		class := hv.Pick(r, []string{"dispatch-grant-session", "dispatch-grant-session", "dispatch-grant-session", "dispatch-key-session", "dispatch-acme"})
 		cases = append(cases, func() { dispatch(seed, pool, class) })
 	}
+	// concurrent exec requests of one session (race.go)
+	cases = append(cases, raceCases(r, pool)...)
 	ax.RunCases(8, cases)
 }
